@@ -52,7 +52,9 @@ KINDS = {
     "0004": ("01", lambda z: ("RQ", "0004", f"{z}00"),
              lambda z, t: ("RP", f"{z}00" + "4B69746368656E" + "00" * 13), "zone"),
     "0418": ("01", lambda z: ("RQ", "0418", f"0000{z}"),
-             lambda z, t: ("RP", f"0040{z}B0040400000000{t:04X}5A7AFFFF7000000001"), "log"),
+             lambda z, t: ("RP", f"00{('00', '40', 'C0')[t % 3]}{z}B0040400000000{t:04X}5A7AFFFF7000000001"), "log"),
+    "000C": ("01", lambda z: ("RQ", "000C", z), lambda z, t: ("RP", f"{z}00{0x100000 + t:06X}"), "zr"),
+    "0005": ("01", lambda z: ("RQ", "0005", z), lambda z, t: ("RP", f"{z}{t & 0x0FFF:04X}"), "zt"),
     "0418n": ("01", lambda z: ("RQ", "0418", f"0000{z}"),
               lambda z, t: ("RP", "000000B0000000000000000000007FFFFF7000000000"), "log"),
     "3220": ("10", lambda z: ("RQ", "3220", f"0000{z}0000"),
@@ -76,10 +78,27 @@ def ctx_values(space: str, r) -> str:
         return f"{r.choice([0, 1, 3, 5, 17, 18, 19, 25, 26, 27, 28, 56, 57, 115, 116, 120, 127]):02X}"
     if space == "frag":
         return f"{r.randrange(12):02X}{r.randrange(1, 4):02X}"
+    if space == "zr":  # zone idx + device role
+        return f"{r.randrange(12):02X}{r.choice(['00', '04', '08', '09', '0A', '0B', '11'])}"
+    if space == "zt":  # 00 + zone type
+        return f"00{r.choice(['04', '08', '09', '0A', '0B', '11', '0D', '0E', '0F'])}"
     return "00"
 
 
 def other_ctx(space: str, z: str, r) -> str | None:
+    # bias to the special contexts: index 00 (null / default entries live there) and neighbours
+    if space in ("zone", "log", "ot") and r.random() < 0.5:
+        cands = [c for c in ("00", f"{(int(z, 16) + 1) % 12:02X}", f"{(int(z, 16) - 1) % 12:02X}") if c != z]
+        if cands:
+            return r.choice(cands[:1] * 3 + cands[1:])
+    if space == "zr" and r.random() < 0.6:  # same zone, another role
+        alt = [z[:2] + x for x in ("00", "04", "08", "0A") if z[:2] + x != z]
+        return r.choice(alt)
+    if space == "frag" and r.random() < 0.5:
+        alt = [z[:2] + f"{(int(z[2:], 16) % 3) + 1:02X}", ("00" if z[:2] != "00" else "01") + z[2:]]
+        alt = [a for a in alt if a != z]
+        if alt:
+            return r.choice(alt)
     for _ in range(20):
         y = ctx_values(space, r)
         if y != z:
@@ -172,6 +191,7 @@ def generate(plan) -> None:
         k["p_slow"] = 0.0
     else:
         n_callers, per = r.randrange(1, 7), r.randrange(1, 5)
+        k["adversary"] = (not fault_free) and r.random() < 0.4
 
     oid = 0
     kinds = list(KINDS)
@@ -396,6 +416,20 @@ class QosSim:
 
     # -- foreign traffic -------------------------------------------------------------
     def foreign_frame(self, what: str, op: Op, r) -> str | None:
+        f = self._foreign_frame(what, op, r)
+        if f is None:
+            return None
+        head = f.split()[:6] if f[0] != " " else ["", *f.split()[:5]]
+        key = (f[:2], f[7:36], f[37:41])  # verb, address set, code
+        for o in self.ops.values():  # a near-miss for `op` must not be the real thing for another call
+            if o is op:
+                continue
+            for cand in (o.wire(self.gid), o.reply_frame(self.gid, 0)):
+                if cand is not None and (cand[:2], cand[7:36], cand[37:41]) == key:
+                    return None
+        return f
+
+    def _foreign_frame(self, what: str, op: Op, r) -> str | None:
         """A near-miss of op's echo or reply that differs in exactly one attribute."""
         self.tag += 1
         if op.rep is None:
@@ -655,8 +689,8 @@ def oracle_c07(sim: QosSim) -> None:
                 cls = sim.foreign_frames.get(got)
                 null0418 = op.code == "0418" and got.endswith(" 0418 022 000000B0000000000000000000007FFFFF7000000000") \
                     and got[7:16] == op.dst
-                if cls == "requester":
-                    ctx.probe("returned_reply_to_other_requester")
+                if cls in ("requester", "rq_other"):  # documented header collisions: counted, not judged
+                    ctx.probe("returned_" + cls + "_collision")
                 elif null0418:  # a null log entry carries no index: any RQ|0418 to that device may own it
                     ctx.probe("ambiguous_null_0418")
                 else:
